@@ -38,6 +38,11 @@ def run_spec(case_lines, fuel=None):
     return [r for o in outs for r in o]
 
 
+def budget_exhausted(c):
+    """The implementation's run was cut by the harness's step budget (inconclusive, like a fuel timeout of (S))."""
+    return len(c) > 3 and c[0] == "err" and any(str(m).startswith("verif: step budget") for m in c[3])
+
+
 def canon_spec_step(st):
     if st is None or "status" not in st:
         return ("missing",)
@@ -61,7 +66,7 @@ def diff(ctx, programs, prop, broken, opts=None, known_signatures=()):
         sst = (s.get("steps") or [None])[-1] if isinstance(s, dict) else None
         cs = canon_spec_step(sst)
         cr = progs.canon_step(r)
-        if cs[0] in ("timeout", "missing") or (sst or {}).get("unordered"):
+        if cs[0] in ("timeout", "missing") or (sst or {}).get("unordered") or budget_exhausted(cr):
             continue
         compared += 1
         if cr != cs:
@@ -94,6 +99,8 @@ def diff_lines(ctx, lines, real, broken, what="history", payload_of=None):
                     break
                 continue
             ca, cb = progs.canon_step(a), canon_spec_step(b)
+            if budget_exhausted(ca):
+                break
             compared += 1
             if ca != cb:
                 f = {"what": "the implementation and the reference interpreter disagree at step %d of a %s" % (j, what), "case_line": line,
